@@ -915,6 +915,8 @@ type EngCtx struct {
 	deadline   Instant
 	children   []*EngCtx
 	cancelable bool
+	cause      value // WithTimeoutCause / WithDeadlineCause: what Cause reports once the deadline has passed
+	timedOut   bool
 }
 
 func (in *Interp) ctxIfaceType() types.Type {
@@ -1071,9 +1073,10 @@ func registerContext() {
 		c := newCancel(in, ctxOf(a[0]))
 		return tuple{in.ctxValue(c), cancelFunc(in, c)}
 	}
-	withDeadline := func(in *Interp, parent *EngCtx, dl Instant, d *Term) value {
+	withDeadline := func(in *Interp, parent *EngCtx, dl Instant, d *Term, cause value) value {
 		c := newCancel(in, parent)
 		c.hasDL, c.deadline = true, dl
+		c.cause = cause
 		var t *Timer
 		if d != nil {
 			t = in.newTimer(d, "ctx-deadline")
@@ -1082,7 +1085,12 @@ func registerContext() {
 			t = &Timer{id: in.timerSeq, deadline: dl, active: true, what: "ctx-deadline"}
 			in.timers = append(in.timers, t)
 		}
-		t.fn = func() { in.ctxCancel(c, in.ctxGlobal("DeadlineExceeded")) }
+		t.fn = func() {
+			if c.err == nil {
+				c.timedOut = true
+			}
+			in.ctxCancel(c, in.ctxGlobal("DeadlineExceeded"))
+		}
 		cf := &NativeFunc{name: "cancel", fn: func(in *Interp, a []value) value {
 			t.active = false
 			in.ctxCancel(c, in.ctxGlobal("Canceled"))
@@ -1092,14 +1100,26 @@ func registerContext() {
 	}
 	I["context.WithTimeout"] = func(in *Interp, fr *frame, fn *ssa.Function, a []value) value {
 		d := a[1].(*Term)
-		return withDeadline(in, ctxOf(a[0]), in.instAdd(in.clock, d), d)
+		return withDeadline(in, ctxOf(a[0]), in.instAdd(in.clock, d), d, nil)
+	}
+	I["context.WithTimeoutCause"] = func(in *Interp, fr *frame, fn *ssa.Function, a []value) value {
+		d := a[1].(*Term)
+		return withDeadline(in, ctxOf(a[0]), in.instAdd(in.clock, d), d, a[2])
 	}
 	I["context.WithDeadline"] = func(in *Interp, fr *frame, fn *ssa.Function, a []value) value {
-		return withDeadline(in, ctxOf(a[0]), in.timeInst(a[1]), nil)
+		return withDeadline(in, ctxOf(a[0]), in.timeInst(a[1]), nil, nil)
+	}
+	I["context.WithDeadlineCause"] = func(in *Interp, fr *frame, fn *ssa.Function, a []value) value {
+		return withDeadline(in, ctxOf(a[0]), in.timeInst(a[1]), nil, a[2])
 	}
 	I["context.Cause"] = func(in *Interp, fr *frame, fn *ssa.Function, a []value) value {
 		for x := ctxOf(a[0]); x != nil; x = x.parent {
 			if x.err != nil {
+				if x.timedOut && x.cause != nil {
+					if ci, ok := x.cause.(iface); ok && ci.t != nil {
+						return x.cause
+					}
+				}
 				return x.err
 			}
 		}
